@@ -415,7 +415,7 @@ def order_leg(ctx, engine_cfg, what):
     edges = ctx.path(engine_cfg + ".edges")
     g = tlc_gen(ctx, "FireOrder.tla", engine_cfg, edges, timeout=900)
     r = replay(ctx, "fireorder", edges)
-    log("  %s: %d FireOrder cases (up to 55 rules), %d failing" % (what, g["edges"], r["failures_n"]))
+    log("  %s: %d FireOrder cases, %d failing" % (what, g["edges"], r["failures_n"]))
     os.remove(edges)
 
 
